@@ -18,6 +18,25 @@ def writeStaticOffsets (name : String) (arity : Nat) (ss : List Nat) : String :=
     head ++ "}; static constexpr std::size_t strides[] = {" ++ joinNats ", " strides ++ "}; };"
   else head ++ "}; };"
 
+/-! ## the debug-build cross-check of static offsets   (core.hpp: `check_static_offset`)
+
+A method compiled against generated offsets reads its slots and strides from the `static_offsets`
+specialisation; under `runtime_checks` each number is compared with the installed one just before it is
+used: slot 0 by the first virtual argument, then slot `k` and stride `k - 1` by the `k`-th. -/
+
+/-- the first disagreement met by a call, in the order the walk uses the numbers: `none` when the walk
+    meets none; `ss` = slots followed by strides -/
+def staticCheckFrom (arity : Nat) (static installed : List Nat) : Nat → Nat → Option String
+  | 0, _ => none
+  | f + 1, k =>
+    if k ≥ arity then none
+    else if (static[k]?).getD 0 ≠ (installed[k]?).getD 0 then some "static_slot"
+    else if k ≥ 1 ∧ (static[arity + k - 1]?).getD 0 ≠ (installed[arity + k - 1]?).getD 0 then some "static_stride"
+    else staticCheckFrom arity static installed f (k + 1)
+
+def staticCheck (arity : Nat) (static installed : List Nat) : Option String :=
+  staticCheckFrom arity static installed arity 0
+
 /-! ## `add_forward_declaration(string_view)`: the regex `(\w+(?:::\w+)*)( *<)?` as a scanner -/
 
 def isWord (c : Char) : Bool := c.isAlphanum || c == '_'
